@@ -66,6 +66,16 @@ mod version_manager;
 
 const MANIFEST_FILE_NAME: &str = "manifest.json";
 
+/// Re-exports of otherwise private units, for out-of-tree verification harnesses.
+#[cfg(risinglight_verif)]
+pub mod verif_hooks {
+    pub use super::block::*;
+    pub use super::checksum::*;
+    pub use super::delete_vector::*;
+    pub use super::encode::*;
+    pub use super::row_handler::*;
+}
+
 #[cfg(test)]
 mod tests;
 
